@@ -29,7 +29,7 @@ CONV = ("n-tau-1", "n-tau", "n-1", "n")
 def cfg(tier):
     q = tier != "thorough"
     return ["SPECIFICATION Spec", "CONSTANTS", f" PatternSets <- {'PSQ' if q else 'PST'}", f" TauMaxs <- {'TMQ' if q else 'TMT'}",
-            "INVARIANT C19_ZeroMean", "INVARIANT C19_DistinctNorms", "INVARIANT C19_LagSumsBounded", "INVARIANT Emit", "CHECK_DEADLOCK FALSE"]
+            "INVARIANT C19_ZeroMean", "INVARIANT C19_PreprocessingImmaterial", "INVARIANT C19_DistinctNorms", "INVARIANT C19_LagSumsBounded", "INVARIANT Emit", "CHECK_DEADLOCK FALSE"]
 
 
 def den(conv, n, tau):
@@ -64,10 +64,15 @@ def eval_world(i, scn):
     rng = np.random.default_rng(common.seed() + i)
     p = B + 2
     V = _orth(rng, p, B)
-    X = xr.DataArray(Z @ V.T, dims=("time", "x"), coords=dict(time=np.arange(n), x=np.arange(p) * 1.0))
+    if c.get("micro"):
+        Z[:, B - 1] *= 1e-7                     # the last block in other units: microscopic amplitude
+    A = Z @ V.T
+    if c.get("offset"):
+        A = A + rng.uniform(2.0, 9.0, size=p)   # a constant level of every feature
+    X = xr.DataArray(A, dims=("time", "x"), coords=dict(time=np.arange(n), x=np.arange(p) * 1.0))
     with warnings.catch_warnings():
         warnings.simplefilter("ignore")
-        m = xe.single.OPA(n_modes=B, tau_max=tm, n_pca_modes=B, solver="full").fit(X, "time")
+        m = xe.single.OPA(n_modes=B, tau_max=tm, n_pca_modes=B, solver="full", center=bool(c.get("center", True))).fit(X, "time")
     T = np.asarray(m.decorrelation_time().values, float)
     S = np.asarray(m.scores().transpose("time", "mode").values)
     # which block is each mode: scores correlate +-1 with exactly one block series
